@@ -955,11 +955,22 @@ func (x *Exec) episode(i int, op Op) *vcore.Failure {
 			}
 		}
 	}
+	armed := false
+	if fa := x.C.FaultAt; fa != nil && fa.Op == i {
+		f := fa.Fault
+		w.ArmFault(&f)
+		armed = true
+	}
 	x.InEpisode = true
 	w.sched = s
 	s.Run(names, fns)
 	w.sched = nil
 	x.InEpisode = false
+	if armed {
+		w.mu.Lock()
+		w.fault = nil
+		w.mu.Unlock()
+	}
 	x.LastTaken = s.Taken
 	x.count("op:episode")
 	x.count(fmt.Sprintf("episode_tasks:%d", len(fns)))
